@@ -3,6 +3,7 @@
 import json, os, shutil, sys
 pid, i, name, breaks, needs = sys.argv[1:6]
 src = "/tmp/seed-out/%s/change%s" % (pid, i)
+pid = pid[:3]
 dst = "/verif/seeded/%s" % name
 os.makedirs(dst, exist_ok=True)
 shutil.copy(os.path.join(src, "patch.diff"), dst)
@@ -17,7 +18,7 @@ meta = {
     "breaks": breaks,
     "needs_to_manifest": needs,
     "demonstration": demo,
-    "origin": "fresh sub-agent given only the property text and a scratch worktree of /repo@70b10e4",
+    "origin": "fresh sub-agent given only the property text (round 2: plus a focus on some of the property's own anchors) and a scratch worktree of /repo",
     "confirmed_by_me": {
         "how": "tools/confirm_seed.sh in the scratch worktree: git apply patch.diff; cargo test --workspace --no-fail-fast --offline (148 lib + 16 integration + 1 wasm pass; only the seed demo tests fail); cargo test --offline --test %s fails with the patch and passes after git checkout" % demo[:-3],
         "log": "confirm.txt",
